@@ -477,6 +477,15 @@ def leg_fault_injection(cases, flavour, tier, jobs=8):
                     ro = toks(il[k]); k += 1
                     if ro[0] != "ok" or unhx(ro[1]) != d2:
                         fs_.append(Failure("other_entry_affected", n, f"{where}: another entry no longer reads its value", sig=sig))
+                # C14: data becomes reachable under a key only through a commit that REPORTED success - a keyed
+                # write that answered an error must not have mapped the key to the new data
+                if res[0] == "err" and case["kind"] == "write" and case["key"] is not None and case.get("data") is not None:
+                    files, _, _ = parse_dump(il[0])
+                    bucket = files.get("c0/" + L.bucket_rel(case["key"]))
+                    cur = L.lookup(L.decode_bucket(bucket), case["key"].decode("utf-8", "replace")) if bucket is not None else None
+                    if cur is not None and cur.get("integrity") == L.sri_of(case["algo"], case["data"]):
+                        fs_.append(Failure("failed_write_visible", n, f"{where}: the write answered {' '.join(res[:3])} but the key is mapped to "
+                                           "the new data all the same", sig=dict(sig, api=case["victim"].split(" ")[1])))
                 # false success of a write: the faulty run said ok but a read (before the retry) would not have found it
                 if res[0] == "ok" and case["kind"] == "write" and case.get("data") is not None:
                     files, _, _ = parse_dump(il[0])
